@@ -14,6 +14,8 @@ from ..predtable import Handler, Unrecognised, isinstance_args, run_block
 from ..solvercfg import OPERATORS, SOLVER, TOKENS, all_configs, default_config
 from . import common as K
 
+from . import C02 as _C02
+
 LEVEL_TEXT = ("static analysis (ast): literal tables, decision tables and normal forms of the solver's "
               "step table, operator table, dispatch, token-buffer discipline, sign rewriting and parenthesis "
               "scanner are extracted from the current source and compared with oracles taken from the property "
@@ -811,6 +813,10 @@ def r8c_tokeniser(ctx):
     ctx.form(ok, SOLVER, "ExpressionSolver.solve", "unprocessed tokens are rejected", detail=t)
 
 
+def r9_fresh_buffers(ctx):
+    _C02.r1_kill_before_use(ctx)
+
+
 RULES = [
     ("C01.R1", "the literal step table equals the order of the property statement (= docs table) and is applied in list order, each group once with its own arity", r1_steps),
     ("C01.R2", "every operator used by a step is configured; symbol and arity equal the documented ones", r2_operator_table),
@@ -821,4 +827,5 @@ RULES = [
     ("C01.R7", "unary-sign decision tables equal the sign algebra up to the resulting token sequence, combined signs are re-scanned, binary signs are not", r7_sign_algebra),
     ("C01.R8", "parenthesis scanner: per (lexeme, depth) the depth change, characters consumed and argument splits are the expected ones; what is consumed was inspected, once; arity is checked", r8_parenthesis),
     ("C01.R8c", "tokeniser cursor discipline: symbol inspected => consumed by the operator constructor; otherwise one character shifted; pending text becomes exactly one atom; leftovers rejected", r8c_tokeniser),
+    ("C01.R9", "the value of an expression depends on that expression only: every solve() starts from empty token buffers (shared with C02.R1)", r9_fresh_buffers),
 ]
